@@ -166,6 +166,13 @@ def check_interp(case, rec):
     for cls in ("bilinear_trailing1", "linear_scalar"):
         if cls in tags and excluded(rec, cls):
             return
+    pure_mass = bil and all((t["u"][0] == "val") == (t["v"][0] == "val") and
+                            (t["u"][0] == "val" or not (cf.has_val(t["u"]) or cf.has_val(t["v"]))) for t in form["terms"])
+    if "vector_value" in tags and not pure_mass and rec.is_known("interpreter", dict(vector_value=True)) is not None:
+        # the 1-component value of a vector field contracted with a dof_n-sized tensor: FeArray rejects the
+        # contraction (ValueError), same root cause as the wrong mass form -> counted, not run
+        rec.label("excluded:vector_value_contracted")
+        return
     field = Field(g, n, matrixType=mt)
     if bil:
         got = BiLinearForm(cf.compile_bilinear(form, d)).Integrate_e(field)
